@@ -91,8 +91,9 @@ type c19Doc struct {
 	R3       *c19Rev
 	Feats    []string
 	Reserved bool
-	Twin     *c19Rev // reserved cases: the same value with the opposite key escaping
-	DiffOnly bool    // written only for the escaping differential
+	Twins    map[string]*c19Rev // reserved cases: the same value spelled differently (kind -> rendering)
+	Promoted *c19Rev            // the leaf that became current after the winner was tombstoned
+	DiffOnly bool               // written only for the escaping differential
 	ResKey   string
 }
 
@@ -1011,12 +1012,19 @@ func c19PathsChunk(t *testing.T, run *vlib.Run, chunkNo, start, end, total int) 
 					for _, k := range c19DifferentialOnly {
 						d.DiffOnly = d.DiffOnly || k == d.ResKey
 					}
-					// the reserved key is spelled literally in one rendering and with \u escapes in its twin
-					st1.Esc = 2 * ((ci + wi) % 2)
-					stT := &c19Style{r: r.Fork(uint64(70 + wi)), WS: st1.WS, Esc: 2 - st1.Esc}
-					d.Twin = &c19Rev{Stage: "rev1", WPath: wp, Text: c19Render(body, stT)}
-					d.Twin.Exp, _ = c19Parse([]byte(d.Twin.Text))
-					texts = append(texts, d.Twin.Text)
+					// the document itself is written compact with the reserved key spelled literally; its twins
+					// spell the same value with \u escapes and with whitespace around every token
+					st1.WS, st1.Esc, st1.Permute = 0, 0, false
+					d.Twins = map[string]*c19Rev{}
+					for kind, stT := range map[string]*c19Style{
+						"key-escaping": {r: r.Fork(uint64(70 + wi)), WS: 0, Esc: 2},
+						"whitespace":   {r: r.Fork(uint64(90 + wi)), WS: 2, Esc: 0, Force: true},
+					} {
+						tw := &c19Rev{Stage: "rev1", WPath: wp, Text: c19Render(body, stT)}
+						tw.Exp, _ = c19Parse([]byte(tw.Text))
+						d.Twins[kind] = tw
+						texts = append(texts, tw.Text)
+					}
 				}
 				d.R1 = &c19Rev{Stage: "rev1", WPath: wp, Text: c19Render(body, st1)}
 				d.R2 = &c19Rev{Stage: "rev2", WPath: "PUT(update-of-" + wp + ")", Text: c19Render(body2, st2)}
@@ -1213,6 +1221,48 @@ func c19PathsChunk(t *testing.T, run *vlib.Run, chunkNo, start, end, total int) 
 			itemsLeaves = append(itemsLeaves, c19BulkGetItem{d, d.R3.Rev}, c19BulkGetItem{d, d.R2.Rev})
 		}
 		c.readBulkGet("bulk_get(leaf)"+suffix, itemsLeaves, false)
+
+		// ---------------- phase E: the winning leaf is tombstoned, the other leaf is promoted to current
+		var promoted []*c19Doc
+		for _, d := range docs {
+			if !d.Accepted || d.R3.Rev == "" || d.CI%3 == 0 {
+				continue
+			}
+			resp := rt.SendAdminRequest("GET", c.keyspaceURL(d.ID), "")
+			var m struct {
+				Rev string `json:"_rev"`
+			}
+			_ = json.Unmarshal(resp.Body.Bytes(), &m)
+			win := d.byRev(m.Rev)
+			if win == nil || (win != d.R2 && win != d.R3) {
+				continue
+			}
+			other := d.R2
+			if win == d.R2 {
+				other = d.R3
+			}
+			del := rt.SendAdminRequest("DELETE", c.keyspaceURL(d.ID)+"?rev="+win.Rev, "")
+			if del.Code != 200 {
+				run.Count("winner_tombstone_rejected", 1)
+				if !d.storedHuge() {
+					c.note("winner-delete-rejected", "DELETE %s?rev=%s -> %d %s", d.ID, win.Rev, del.Code, c19Trunc(del.Body.String(), 200))
+				}
+				continue
+			}
+			run.Count("winners_tombstoned", 1)
+			d.Promoted = other
+			promoted = append(promoted, d)
+		}
+		if flushed {
+			rt.GetDatabase().FlushRevisionCacheForTest()
+		}
+		var itemsPromoted []c19BulkGetItem
+		for _, d := range promoted {
+			c.getDoc(d, d.Promoted, "GET(promoted-leaf)"+suffix, "", false)
+			c.getDoc(d, d.Promoted, "GET?rev(promoted-leaf)"+suffix, "?rev="+d.Promoted.Rev, false)
+			itemsPromoted = append(itemsPromoted, c19BulkGetItem{d, ""})
+		}
+		c.readBulkGet("bulk_get(promoted-leaf)"+suffix, itemsPromoted, false)
 		all = append(all, docs...)
 		batchNo++
 	}
@@ -1326,10 +1376,10 @@ func (c *c19Ctx) writeSingle(wp, id string, rv *c19Rev, ci int) (accepted bool, 
 	return false, "", "unknown write path"
 }
 
-// twin: the same value rendered with the opposite key-escaping is written through the same path to a
-// second document; whether a body is accepted must not depend on how its keys are spelled.
+// twin: the same value spelled differently (key escaped / whitespace around the tokens) is written through the
+// same path to another document; whether a body is accepted must not depend on how it is spelled.
 func (c *c19Ctx) twin(d *c19Doc) {
-	if d.Twin == nil || d.Status == "inconclusive" {
+	if len(d.Twins) == 0 || d.Status == "inconclusive" {
 		return
 	}
 	if d.ResKey == "_id" && (d.WPath == "POST" || strings.HasPrefix(d.WPath, "bulk_docs")) {
@@ -1337,32 +1387,38 @@ func (c *c19Ctx) twin(d *c19Doc) {
 		// same (or another) document and are not independent
 		return
 	}
-	ok, _, status := c.writeSingle(d.WPath, d.ID+"-twin", d.Twin, d.CI)
-	if status == "inconclusive" {
-		return
+	for _, kind := range []string{"key-escaping", "whitespace"} {
+		tw := d.Twins[kind]
+		ok, _, status := c.writeSingle(d.WPath, d.ID+"-twin-"+kind, tw, d.CI)
+		if status == "inconclusive" {
+			continue
+		}
+		c.run.Eval()
+		c.run.Count("spelling_differentials", 1)
+		c.run.Count("spelling_differentials:"+kind, 1)
+		if ok == d.Accepted {
+			c.run.Count("spelling_differentials_consistent", 1)
+			continue
+		}
+		acc, rej, rejStatus := d.R1.Text, tw.Text, status
+		if ok {
+			acc, rej, rejStatus = tw.Text, d.R1.Text, d.Status
+		}
+		if c.esc == nil {
+			c.esc = map[string][]map[string]any{}
+		}
+		key := d.WPath + "|" + kind
+		c.esc[key] = append(c.esc[key], map[string]any{"case": d.CI, "reserved_key": d.ResKey, "rejected_rendering": rej, "rejection": rejStatus,
+			"accepted_rendering": acc, "doc_ids": []string{d.ID, d.ID + "-twin-" + kind}})
+		c.run.Count("spelling_differentials_disagreeing:"+d.WPath+":"+kind+":"+d.ResKey, 1)
 	}
-	c.run.Eval()
-	c.run.Count("escape_differentials", 1)
-	if ok == d.Accepted {
-		c.run.Count("escape_differentials_consistent", 1)
-		return
-	}
-	acc, rej, rejStatus := d.R1.Text, d.Twin.Text, status
-	if ok {
-		acc, rej, rejStatus = d.Twin.Text, d.R1.Text, d.Status
-	}
-	if c.esc == nil {
-		c.esc = map[string][]map[string]any{}
-	}
-	c.esc[d.WPath] = append(c.esc[d.WPath], map[string]any{"case": d.CI, "reserved_key": d.ResKey, "rejected_rendering": rej, "rejection": rejStatus,
-		"accepted_rendering": acc, "doc_ids": []string{d.ID, d.ID + "-twin"}})
-	c.run.Count("escape_differentials_disagreeing:"+d.WPath+":"+d.ResKey, 1)
 }
 
-// reportEscapeDifferentials emits one violation per write path whose accept/reject decision depended on the
-// spelling of a reserved key (all keys and up to three examples per key in the witness).
+// reportEscapeDifferentials emits one violation per (write path, kind of spelling) whose accept/reject decision
+// depended on the spelling of a body carrying a reserved key (all keys and up to three examples per key in the witness).
 func (c *c19Ctx) reportEscapeDifferentials() {
-	for wp, list := range c.esc {
+	for wk, list := range c.esc {
+		wp, kind := wk[:strings.IndexByte(wk, '|')], wk[strings.IndexByte(wk, '|')+1:]
 		keys := map[string]int{}
 		var examples []map[string]any
 		for _, e := range list {
@@ -1373,10 +1429,14 @@ func (c *c19Ctx) reportEscapeDifferentials() {
 			}
 		}
 		first := list[0]
-		c19Violation(c.run, "reserved-properties", "C19|write="+wp+"|reserved-key-accepted-or-rejected-depending-on-key-escaping",
-			fmt.Sprintf("through %s the same JSON value is refused when the reserved key is spelled literally but accepted and stored when it is spelled with \\u escapes (or the reverse); keys and counts: %v; e.g. refused: %s (%v) accepted: %s",
-				wp, keys, c19Trunc(first["rejected_rendering"].(string), 300), first["rejection"], c19Trunc(first["accepted_rendering"].(string), 300)),
-			map[string]any{"write_path": wp, "keys": keys, "examples": examples})
+		how := "spelled with \\u escapes"
+		if kind == "whitespace" {
+			how = "written with whitespace around the tokens"
+		}
+		c19Violation(c.run, "reserved-properties", "C19|write="+wp+"|reserved-key-accepted-or-rejected-depending-on-"+kind,
+			fmt.Sprintf("through %s the same JSON value is refused when written compact with the reserved key spelled literally but accepted and stored when it is %s (or the reverse); keys and counts: %v; e.g. refused: %s (%v) accepted: %s",
+				wp, how, keys, c19Trunc(first["rejected_rendering"].(string), 300), first["rejection"], c19Trunc(first["accepted_rendering"].(string), 300)),
+			map[string]any{"write_path": wp, "spelling": kind, "keys": keys, "examples": examples})
 	}
 	c.esc = nil
 }
